@@ -138,7 +138,7 @@ func c17(c *core.Ctx) {
 		c.Violation("C17.R3", "sendSharedMsg|one-send", fpos(c, ss), fmt.Sprintf("sendSharedMsg must call the send callback at exactly one place (found %d)", len(sendCalls)))
 	} else {
 		sc := sendCalls[0]
-		arg := sc.Common().Args[0]
+		arg := rawArgs(sc)[0]
 		_, idx := arg.(*ssa.UnOp)
 		indexed := false
 		for v := range ssax.Backward(arg) {
